@@ -26,6 +26,15 @@ var c19VerFlags = []version.AttrKey{version.Blocked, version.Deleted, version.Er
 var c19VerKeys = []version.AttrKey{version.Redirect, version.Features, version.DerivedFrom, version.NativeLibrary,
 	version.Registries, version.SupportedFrameworks, version.DependencyGroups, version.Ident, version.Created, version.Tags}
 
+// Keys without a name. attr.Set holds "arbitrary uint8 keys" below 64 and a
+// mask whose eight bits "may all be set"; dep and version declare only some
+// of them (dep reserves -0x08 and -0x10 for future use). The value semantics
+// and the order laws range over all of them; the text form has no spelling
+// for an undeclared key, so handles holding one are left out of the text
+// round trip. Drawn only in runs of the "unnamed keys" flavour.
+var c19UnnamedFlags = []int{-0x08, -0x10, -0x20, -0x40}
+var c19UnnamedKeys = []int{0, 12, 13, 31, 32, 33, 47, 48, 55, 56, 57, 58, 59, 60, 61, 62, 63}
+
 // Values: empty, plain, spaced (single inner spaces), quoted/escaped, comma
 // lists, non-ASCII. The schema grammar's own metacharacters (#, |, tab,
 // newline, "@" and ": ") are outside the domain: they cannot be written in
@@ -82,6 +91,20 @@ func (h *c19Handle) kvs() []uni.KV {
 	return out
 }
 
+func (h *c19Handle) hasUnnamed() bool {
+	for _, k := range c19UnnamedFlags {
+		if h.flags[k] {
+			return true
+		}
+	}
+	for _, k := range c19UnnamedKeys {
+		if _, ok := h.vals[k]; ok {
+			return true
+		}
+	}
+	return false
+}
+
 func (h *c19Handle) set(k int, v string) {
 	if k < 0 {
 		h.flags[k] = true
@@ -101,10 +124,11 @@ func (h *c19Handle) set(k int, v string) {
 }
 
 type c19State struct {
-	res   *Result
-	hs    []*c19Handle
-	trace []string
-	step  int
+	unnamed bool // this run also draws undeclared keys
+	res     *Result
+	hs      []*c19Handle
+	trace   []string
+	step    int
 }
 
 func (s *c19State) bad(key, format string, args ...any) {
@@ -133,6 +157,20 @@ func (s *c19State) checkReads(h *c19Handle) {
 			mv, mok := h.vals[int(k)]
 			if ok != mok || v != mv || h.va.HasAttr(k) != mok {
 				s.bad(kn+":value", "h%d: GetAttr(%v) = (%q,%v), model says (%q,%v)", h.id, k, v, ok, mv, mok)
+			}
+		}
+		if s.unnamed {
+			for _, k := range c19UnnamedFlags {
+				if ok := h.va.HasAttr(version.AttrKey(k)); ok != h.flags[k] {
+					s.bad(kn+":flag", "h%d: flag %d present=%v, model says %v", h.id, k, ok, h.flags[k])
+				}
+			}
+			for _, k := range c19UnnamedKeys {
+				v, ok := h.va.GetAttr(version.AttrKey(k))
+				mv, mok := h.vals[k]
+				if ok != mok || v != mv || h.va.HasAttr(version.AttrKey(k)) != mok {
+					s.bad(kn+":value", "h%d: GetAttr(%d) = (%q,%v), model says (%q,%v)", h.id, k, v, ok, mv, mok)
+				}
 			}
 		}
 		if e := h.va.Empty(); e != (len(h.flags) == 0 && len(h.vals) == 0) {
@@ -181,6 +219,20 @@ func (s *c19State) checkReads(h *c19Handle) {
 		mv, mok := h.vals[int(k)]
 		if ok != mok || v != mv || h.dt.HasAttr(k) != mok {
 			s.bad(kn+":value", "h%d: GetAttr(%v) = (%q,%v), model says (%q,%v)", h.id, k, v, ok, mv, mok)
+		}
+	}
+	if s.unnamed {
+		for _, k := range c19UnnamedFlags {
+			if ok := h.dt.HasAttr(dep.AttrKey(k)); ok != h.flags[k] {
+				s.bad(kn+":flag", "h%d: flag %d present=%v, model says %v", h.id, k, ok, h.flags[k])
+			}
+		}
+		for _, k := range c19UnnamedKeys {
+			v, ok := h.dt.GetAttr(dep.AttrKey(k))
+			mv, mok := h.vals[k]
+			if ok != mok || v != mv || h.dt.HasAttr(dep.AttrKey(k)) != mok {
+				s.bad(kn+":value", "h%d: GetAttr(%d) = (%q,%v), model says (%q,%v)", h.id, k, v, ok, mv, mok)
+			}
 		}
 	}
 	if r := h.dt.IsRegular(); r != (len(h.flags) == 0 && len(h.vals) == 0) {
@@ -256,6 +308,9 @@ func (s *c19State) checkOrder() {
 
 // roundTrip writes the handle in the schema syntax and parses it back.
 func (s *c19State) roundTrip(h *c19Handle) {
+	if h.hasUnnamed() {
+		return // no spelling in the text form
+	}
 	kvs := h.kvs()
 	if h.ver {
 		spec := uni.Spec{Sys: resolve.NPM, Pkgs: []uni.Pkg{{Name: "pkg", Vers: []uni.Ver{{V: "1.0.0", Attrs: kvs}}}}}
@@ -330,6 +385,12 @@ func drawValue(t *kernel.Tape) string {
 }
 
 func (s *c19State) drawKV(t *kernel.Tape, ver bool) (int, string) {
+	if s.unnamed && t.Bool(1, 3) {
+		if t.Bool(1, 4) {
+			return c19UnnamedFlags[t.Choose(len(c19UnnamedFlags))], ""
+		}
+		return c19UnnamedKeys[t.Choose(len(c19UnnamedKeys))], drawValue(t)
+	}
 	if t.Bool(1, 4) {
 		if ver {
 			return int(c19VerFlags[t.Choose(len(c19VerFlags))]), ""
@@ -376,6 +437,10 @@ func RunC19(t *kernel.Tape, o Opts) *Result {
 	res := &Result{Prop: "C19", Status: "ok", Config: "history"}
 	s := &c19State{res: res}
 	nops := t.Range(3, 40)
+	s.unnamed = t.Bool(1, 5)
+	if s.unnamed {
+		fault(res, "unnamed_key_runs", 1)
+	}
 	clones, mutAfterClone, cmpAfter := 0, 0, 0
 	for step := 0; step < nops && len(res.Violations) == 0; step++ {
 		s.step = step
